@@ -375,6 +375,13 @@ def rule_bits(R):
         vs = valueset.evaluate(f, x)
         gs = guards_of(cs, bb)
         gtxt = " & ".join("%s=%s" % (g[0][-60:], g[1]) for g in gs)
+        if vs is not None and len(vs) == 1 and bin(list(vs)[0]).count("1") > 1:
+            # `flags |= A | B`: one contribution per bit
+            v = list(vs)[0]
+            for bit in range(8):
+                if v & (1 << bit):
+                    got.append((frozenset({1 << bit}), gtxt, span, x))
+            continue
         got.append((frozenset(vs) if vs is not None else None, gtxt, span, x))
     want = [
         ({1 << 1}, ["clean_start=True"], "clean start: bit 1, when clean_start"),
